@@ -300,6 +300,16 @@ func recvAgainstRef(r *Run, fs framingSpec, ch channel.Channel, ref refDecoder, 
 			if ended >= 3 {
 				return
 			}
+		case xRecordOpt:
+			tail = true
+			if err == nil && !same(exp.Rec) {
+				r.Fail("fabricated-or-altered-record", "%s: Recv %d returned %s without error; the header declares the %d-byte record %s (%s)", fs.Name, i, preview(data), len(exp.Rec), preview(exp.Rec), exp.Why)
+				return
+			}
+			if err != nil && len(data) != 0 && !same(exp.Rec) {
+				r.Fail("fabricated-or-altered-record", "%s: Recv %d returned %s with %v; the declared record is %s", fs.Name, i, preview(data), err, preview(exp.Rec))
+				return
+			}
 		case xUnspec:
 			tail = true
 			if len(data) != 0 && !bytes.Contains(stream, bytes.TrimSpace(data)) {
